@@ -389,12 +389,15 @@ extern int total_queries;
  * to be managed (but dest may be NULL in any case).
  */
 #define GET_COLUMN_STRING(stmt, col, dest, onerr) do { \
-    const UChar *string_val = (const UChar *) sqlite3_column_text16(stmt, col); \
-    if (string_val == NULL) { \
+    if (sqlite3_column_type(stmt, col) == SQLITE_NULL) { \
         dest = NULL; \
     } else { \
-        size_t value_bytes = (size_t) sqlite3_column_bytes16(stmt, col); \
+        const UChar *string_val = (const UChar *) sqlite3_column_text16(stmt, col); \
+        size_t value_bytes; \
         int32_t value_chars; \
+        /* a NULL result for a non-NULL value means that SQLite could not allocate space for the text */ \
+        if (string_val == NULL) { dest = NULL; SET_RESULT(CIF_MEMORY_ERROR); goto onerr; } \
+        value_bytes = (size_t) sqlite3_column_bytes16(stmt, col); \
         dest = (UChar *) malloc(value_bytes + sizeof(UChar)); \
         if (dest == NULL) { SET_RESULT(CIF_MEMORY_ERROR); goto onerr; } \
         value_chars = (int32_t) (value_bytes / 2); \
@@ -412,11 +415,14 @@ extern int total_queries;
  * to be managed (but dest may be NULL in any case).
  */
 #define GET_COLUMN_BYTESTRING(stmt, col, dest, onerr) do { \
-    const char *string_val = (const char *) sqlite3_column_text(stmt, col); \
-    if (string_val == NULL) { \
+    if (sqlite3_column_type(stmt, col) == SQLITE_NULL) { \
         dest = NULL; \
     } else { \
-        size_t value_bytes = (size_t) sqlite3_column_bytes(stmt, col); \
+        const char *string_val = (const char *) sqlite3_column_text(stmt, col); \
+        size_t value_bytes; \
+        /* a NULL result for a non-NULL value means that SQLite could not allocate space for the text */ \
+        if (string_val == NULL) { dest = NULL; SET_RESULT(CIF_MEMORY_ERROR); goto onerr; } \
+        value_bytes = (size_t) sqlite3_column_bytes(stmt, col); \
         dest = (char *) malloc(value_bytes + 1); \
         if (dest == NULL) { SET_RESULT(CIF_MEMORY_ERROR); goto onerr; } \
         strncpy(dest, string_val, value_bytes); \
